@@ -967,6 +967,9 @@ class Run:
             raise Unsupported(f"line {self.cur_line}: attribute {o.cls}.{attr}")
         if isinstance(o, SuperRef):
             return Bound(o, attr)
+        if isinstance(o, sym.SOutArr) and attr == 'shape':
+            # shape tuple of the output-array model (only the leading dimension is ever read)
+            return STuple([SNum(o.d0), SNum(o.d1)])
         if isinstance(o, SV):
             return Bound(o, attr)
         raise Unsupported(f"attribute {attr} of {o}")
@@ -1667,6 +1670,14 @@ def coerce(run, v, typ):
         return r
     if isinstance(v, PyEmptyDict) and isinstance(typ, TDict):
         return SDict(typ, typ.empty())
+    if isinstance(v, SDict) and isinstance(typ, TDict) and v.typ != typ and v.typ.k == typ.k and v.typ.v is TNumK \
+            and typ.v is TNum:
+        # numbers-with-kind seen as plain numbers (the kind does not matter to the reader)
+        r = run.fresh(typ, 'asNum')
+        k = z3.Const(fresh_name('ck'), typ.k.sort())
+        run.assume(r.dom == v.dom, sym.forall([k], z3.Implies(v.dom[k], r.val[k] == TNumK.sort().accessor(0, 0)(v.val[k])),
+                                              [r.val[k]]))
+        return r
     return v
 
 
